@@ -7,7 +7,7 @@ CHECKS["C15"] = dict(
           "context ends. Every returned batch is judged first by the clauses alone (full size, only added commands, none at or below "
           "the mark, none handed out twice), then compared element by element with the model; at the end fillers from an unused "
           "client complete the last batch and everything still fresh must come out in order, after which Get must block. "
-          "TestC15Model: rapid histories of add / proposed(batch over any commands) / proposed(a batch handed out earlier) / get, "
+          "TestC15Model: rapid histories of add / proposed(batch over any commands) / proposed(a batch handed out earlier) / get / get with an already cancelled context (either outcome is allowed; the following requests show whether the cache was disturbed), "
           "batch 1..4, clients 1..3, seq 0..10, up to 60 ops, in two blocking modes (context ending after 5 ms, or the Get left "
           "pending across the following operations and checked after each one). TestC15Exhaustive: ALL histories over "
           "{get, add(c,s), proposed[c s]} for 2 clients and batch size 1..2: quick seq 1..3 up to length 5 plus seq 1..2 up to length 6, "
@@ -28,7 +28,7 @@ CHECKS["C15"] = dict(
                  "marks start at 0, so sequence number 0 is never fresh (real clients number their commands from 1)",
                  "two Adds of the same (client, seq) before it is marked are two accepted commands (the cache does not de-duplicate "
                  "unproposed commands; real clients send each sequence number once per replica)",
-                 "a Get whose context is already done while a full batch is ready may return either; such requests are not generated",
+                 "a Get whose context is already done while a full batch is ready may return either the batch or the context's error (Go's select chooses); both are accepted, so which of the two happens in a run is not reproducible from the seed - the verdict on correct code does not depend on it",
                  "the duplicate filter inside Add is not observable through Get (a command stale at Add stays stale and is "
                  "filtered at extraction), so it is outside this property"],
 )
